@@ -79,6 +79,10 @@ class Handle:
 
 
 class DbAdapter(engine.Adapter):
+    # engine option: build + replay once per state, then apply every menu event in a forked copy of the process
+    # (a sound snapshot of the live objects); ignored by an engine that does not know it
+    fork_expand = True
+
     def __init__(self, topo="lan", focus="conn", max_sessions=2, power=(0, 0), max_handles=3, fixing_duration=1):
         self.topo = topo
         self.focus = focus
@@ -479,8 +483,8 @@ class DbAdapter(engine.Adapter):
             return [r, after], synced
         # the query reached a running service on a connection it issued and has not closed
         if sql == "SELECT" and s.m_file == COMPROMISED and r:
-            viols.append(violation("select_fails_on_compromised", "query:SELECT:success:file=COMPROMISED:health=%s" % e["health"],
-                                   "SELECT returned success while database.db is COMPROMISED"))
+            viols.append(violation("select_fails_on_compromised", "query:SELECT:success:file=COMPROMISED",
+                                   "SELECT returned success while database.db is COMPROMISED (service health %s)" % e["health"]))
         if e["health"] != "GOOD":
             # documented convention: a service that is not in GOOD health answers 500 ("service unavailable");
             # the statement is silent: the effect is taken over from the implementation
@@ -493,7 +497,7 @@ class DbAdapter(engine.Adapter):
             want_r = {GOOD: True, COMPROMISED: False}.get(s.m_file)  # CORRUPT: answered 200 without data; not judged
         else:
             want_r = None  # unknown statement: only "no effect on the data" is demanded
-        if after != want_file or (want_r is not None and r != want_r):
+        if (after != want_file or (want_r is not None and r != want_r)) and not viols:
             viols.append(violation("query_effect", "query:%s:file=%s:got=%s/%s" % (sqlname, s.m_file, r, after),
                                    "%s on a live connection of a healthy running service with database.db %s: expected "
                                    "result %s and file %s, got result %s and file %s" % (sqlname, s.m_file, want_r, want_file, r, after)))
@@ -535,7 +539,7 @@ class DbAdapter(engine.Adapter):
     # ---- restore -------------------------------------------------------------------------------------------------
     def _restore_oracle(self, s, k, pre, before, ret, after):
         v = []
-        via = "restore" if k == "restore" else "restore-after-fix"
+        via = "restore_backup()" if k == "restore" else "restore_backup() at the end of a fix"
         block = None
         if pre["node"] != "ON":
             block = "node=" + pre["node"]
@@ -545,16 +549,16 @@ class DbAdapter(engine.Adapter):
             block = "path=blocked"
         if block:
             if ret or after != before:
-                v.append(violation("blocked_no_restore", "%s:succeeded-despite:%s" % (via, block),
-                                   "restore_backup returned %s and database.db went %s -> %s although %s" % (ret, before, after, block)))
+                v.append(violation("blocked_no_restore", "restore:succeeded-despite:%s" % block,
+                                   "%s returned %s and database.db went %s -> %s although %s" % (via, ret, before, after, block)))
             s.m_file = after
             return v
         if s.m_backup == GOOD:
             if after != GOOD or not ret:
                 v.append(violation(
                     "restore_of_healthy_backup_gives_good_file",
-                    "restore:returned=%s:earlier-successful-restores=%s" % (ret, "0" if s.restores_ok == 0 else ">=1"),
-                    "the latest successful backup was taken while database.db was GOOD; the service is RUNNING on an ON node "
+                    "restore:returned=%s:file-not-good" % ret,
+                    via + ": the latest successful backup was taken while database.db was GOOD; the service is RUNNING on an ON node "
                     "and the backup server is reachable; restore_backup returned %s and database.db is %s (was %s); "
                     "successful backups so far %d, successful restores so far %d" % (ret, after, before, s.backups_ok, s.restores_ok)))
             s.m_file = GOOD
@@ -683,20 +687,21 @@ def run(tier, is_known):
     t0 = time.time()
     if tier == "thorough":
         plan = [  # topo, focus, max_sessions, power, fixing duration, depth, state budget, time budget
-            ("lan", "conn", 2, (0, 0), 1, 4, 30000, 600),
-            ("lan", "core", 2, (0, 0), 1, 6, 9000, 900),
-            ("lan", "core", 1, (0, 0), 1, 5, 9000, 300),
-            ("lan", "data", 2, (0, 0), 1, 5, 20000, 600),
-            ("routed", "mix", 2, (0, 0), 1, 5, 20000, 600),
-            ("lan", "core", 2, (1, 1), 1, 5, 9000, 300),
-            ("lan", "data", 2, (1, 1), 2, 5, 20000, 400),
+            # (budgets are tested before a level is started: the full 'conn' alphabet goes to depth 5 only on an idle machine)
+            ("lan", "conn", 2, (0, 0), 1, 5, 60000, 150),
+            ("lan", "core", 2, (0, 0), 1, 7, 60000, 600),
+            ("lan", "core", 1, (0, 0), 1, 6, 60000, 600),
+            ("lan", "data", 2, (0, 0), 1, 6, 60000, 600),
+            ("routed", "mix", 2, (0, 0), 1, 6, 60000, 600),
+            ("lan", "core", 2, (1, 1), 1, 6, 60000, 600),
+            ("lan", "data", 2, (1, 1), 2, 6, 60000, 600),
         ]
     else:
         plan = [
-            ("lan", "core", 1, (0, 0), 1, 4, 30000, 30),
-            ("lan", "conn", 2, (0, 0), 1, 3, 30000, 30),
-            ("lan", "data", 2, (0, 0), 1, 4, 30000, 30),
-            ("routed", "mix", 2, (0, 0), 1, 4, 30000, 30),
+            ("lan", "core", 1, (0, 0), 1, 4, 30000, 45),
+            ("lan", "conn", 2, (0, 0), 1, 3, 30000, 45),
+            ("lan", "data", 2, (0, 0), 1, 5, 30000, 45),
+            ("routed", "mix", 2, (0, 0), 1, 4, 30000, 45),
         ]
     viols = []
     per = []
